@@ -20,6 +20,7 @@ import (
 	"regexp"
 	"strconv"
 	"strings"
+	"unicode/utf8"
 
 	sdcpb "github.com/sdcio/sdc-protos/sdcpb"
 	log "github.com/sirupsen/logrus"
@@ -268,7 +269,8 @@ func ConvertString(value string, lst *sdcpb.SchemaLeafType) (*sdcpb.TypedValue, 
 	// check length of the string if the length property is set
 	// length will contain a range like string definition "5..60" or "7..10|40..45"
 	if len(lst.Length) != 0 {
-		_, err := convertUint(strconv.Itoa(len(value)), lst.Length, nil)
+		// the length statement counts characters, not the bytes of their encoding
+		_, err := convertUint(strconv.Itoa(utf8.RuneCountInString(value)), lst.Length, nil)
 
 		if err != nil {
 			return nil, err
